@@ -69,6 +69,8 @@ def _pos_elt(elt, src):
     if elt == ("call", VP, (v,), ()):
         return "var"
     idx_call = ("call", ("sub", B, i), (v,), ())
+    if elt[0] == "call" and elt[1][0] == "ifexp" and not elt[3]:
+        elt = ("ifexp", elt[1][1], ("call", elt[1][2], elt[2], ()), ("call", elt[1][3], elt[2], ()))
     if elt == idx_call:
         return "indexed!"  # no fallback
     if elt == ("ifexp", ("cmp", "in", i, B), idx_call, v):
@@ -121,6 +123,11 @@ def summarise_kw(term):
     if pair[0] != "pair" or pair[1] != k:
         return None
     val = pair[2]
+    # (f if c else g)(x) is f(x) if c else g(x); for the plain dict `binding`, B[k](v) if k in B else X(v) is B.get(k, X)(v)
+    if val[0] == "call" and val[1][0] == "ifexp" and not val[3]:
+        val = ("ifexp", val[1][1], ("call", val[1][2], val[2], ()), ("call", val[1][3], val[2], ()))
+    if val[0] == "ifexp" and val[1] == ("cmp", "in", k, B) and val[2] == ("call", ("sub", B, k), (v,), ()) and val[3][0] == "call" and val[3][2] == (v,) and not val[3][3]:
+        val = ("call", ("call", ("attr", B, "get"), (k, val[3][1]), ()), (v,), ())
     if val == ("call", ("call", ("attr", B, "get"), (k, VK), ()), (v,), ()):
         return "named_or_var"
     named = ("call", ("sub", B, k), (v,), ())
@@ -816,6 +823,21 @@ def check_flow(prog: Program, rep: Report):
                 if e[0] == "decorate":
                     decs.extend(e[2])
         wr = any(T.is_call_to(d, "functools.wraps") and d[2] == (("param", "obj"),) for d in decs)
+
+        def metadata_copy(tm):
+            """functools.update_wrapper(f, obj) / functools.wraps(obj)(f): (f, obj), both return f itself."""
+            if T.is_call_to(tm, "functools.update_wrapper") and len(tm[2]) == 2 and not tm[3]:
+                return tm[2]
+            if tm[0] == "call" and T.is_call_to(tm[1], "functools.wraps") and len(tm[2]) == 1 and len(tm[1][2]) == 1 and not tm[1][3]:
+                return (tm[2][0], tm[1][2][0])
+            return None
+
+        for pth in wpaths:
+            for tm in pth.all_terms():
+                for sx in T.walk(tm):
+                    mc = metadata_copy(sx)
+                    if mc is not None and mc[0][0] == "closure" and mc[1] == ("param", "obj"):
+                        wr = True
         rep.check(wr, "R10.4", w.qualname, w.loc, "closure decorated with functools.wraps(obj) (metadata preserved)", "wrap(): closure is not decorated with functools.wraps(obj)", detail="wraps")
         # the closure is what is returned on the non-class path; class path rebinds __init__
         ret_closure = cls_branch = False
@@ -823,7 +845,11 @@ def check_flow(prog: Program, rep: Report):
             g = pth.guards()
             isclass = [pol for tm, pol in g if T.is_call_to(tm, "inspect.isclass") and tm[2] == (("param", "obj"),)]
             if pth.exit[0] == "return":
-                if isclass == [False] and pth.exit[1][0] == "closure":
+                rv = pth.exit[1]
+                mc = metadata_copy(rv)
+                if mc is not None:
+                    rv = mc[0]
+                if isclass == [False] and rv[0] == "closure":
                     ret_closure = True
                 if isclass == [True]:
                     st = [e for e in pth.events if e[0] == "setattr" and e[1] == ("param", "obj") and e[2] == "__init__"]
